@@ -25,6 +25,10 @@ type bfsCfg struct {
 	// Roots are the start histories (default: the empty history). Non-initial start
 	// states are given as fixed prefixes that are not counted in the depth.
 	Roots [][]string
+	// OpenTags are the known-finding tags listed as open: a state whose violation carries
+	// one of them is recorded (and reported as KNOWN-FINDING) but still expanded, so that a
+	// recorded defect does not hide the state space behind it.
+	OpenTags map[string]bool
 }
 
 type violation struct {
@@ -247,7 +251,15 @@ func runBFS(bin, scratch string, c bfsCfg) (*bfsOut, error) {
 			}
 			if len(r.Viol) > 0 {
 				out.Violations = append(out.Violations, violation{Hist: h, Viol: r.Viol, Known: r.KnownTags, Detail: r.Detail})
-				continue // everything below a violating state is tainted
+				known := false
+				for _, t := range r.KnownTags {
+					if c.OpenTags[t] {
+						known = true
+					}
+				}
+				if !known {
+					continue // everything below a violating state is tainted
+				}
 			}
 			if depth < c.Depth {
 				for _, e := range r.Succ {
